@@ -111,8 +111,10 @@ Record cfg := {
   c_gzip : bool;          (* gzip directive present (ext * ) *)
   c_header : bool;        (* header / { X-Cfg c12 ; -X-Del } *)
   c_errors : emode;
+  c_redir : bool;         (* redir /rd /there 302 *)
   c_status : option Z;    (* status <code> /st *)
-  c_mime : bool;
+  c_mime : bool;          (* mime .txt text/x-c12 *)
+  c_internal : bool;      (* internal /int *)
   c_templates : bool      (* templates / .html *)
 }.
 
@@ -126,6 +128,17 @@ Definition status_rule (c : cfg) (path : bytes) : option Z :=
   | Some s => if has_pref (eff_path c path) (bs "/st") then Some s else None
   | None => None
   end.
+(* redir /rd /there 302: the rule matches the (rewritten) path exactly and answers itself *)
+Definition P_RD := bs "/rd".
+Definition redir_hit (c : cfg) (path : bytes) : bool := c_redir c && beq (eff_path c path) P_RD.
+(* internal /int: a request for an internal location is answered 404 without calling the inner
+   handlers (the X-Accel-Redirect loop is outside the model) *)
+Definition internal_hit (c : cfg) (path : bytes) : bool := c_internal c && has_pref (eff_path c path) (bs "/int").
+(* mime .txt text/x-c12: Content-Type is set on the response header map before the inner
+   handlers run *)
+Definition V_MIME := bs "text/x-c12".
+Definition mime_ct (c : cfg) (path : bytes) : option bytes :=
+  if c_mime c && beq (path_ext (eff_path c path)) (bs ".txt") then Some V_MIME else None.
 (* httpserver/plugin.go InspectServerBlocks: a site with gzip and no errors directive gets a
    bare `errors` (so that error pages are written before the gzip writer is closed) *)
 Definition eff_errors (c : cfg) : emode :=
@@ -342,8 +355,11 @@ Definition b_write_buffered (y : st) : out :=
     bnd (h_wh (b_status y) (set_chdr y (hcopy (b_hdr y) (chdr y))))
         (fun z => match b_buf y with [] => Done z | _ => h_wr (b_buf y) z end)
   else Done y.
-Definition templates_on (m : tmode) (inner : st -> hres) (x : st) : hres :=
-    match inner (set_b x m false false 200 [] []) with
+(* The bytes.Buffer comes from Templates.BufPool with whatever an earlier request (a panicking
+   one included: the deferred Put returns it as it is) left in it; `buf.Reset()` empties it. *)
+Definition buf_reset (leftover : bytes) : bytes := [].
+Definition templates_on_p (pooled : bytes) (m : tmode) (inner : st -> hres) (x : st) : hres :=
+    match inner (set_b x m false false 200 [] (buf_reset pooled)) with
     | HPan y => HPan y
     | HRet code e y =>
         if b_stream y || (300 <=? code) || e then
@@ -366,11 +382,13 @@ Definition templates_on (m : tmode) (inner : st -> hres) (x : st) : hres :=
           | Pan z => HPan z
           end
     end.
-Definition templates_mw (m : tmode) (inner : st -> hres) (x : st) : hres :=
+Definition templates_on : tmode -> (st -> hres) -> st -> hres := templates_on_p [].
+Definition templates_mw_p (pooled : bytes) (m : tmode) (inner : st -> hres) (x : st) : hres :=
   match m with
   | TOff => inner x
-  | _ => templates_on m inner x
+  | _ => templates_on_p pooled m inner x
   end.
+Definition templates_mw : tmode -> (st -> hres) -> st -> hres := templates_mw_p [].
 
 (* ---------- status ---------- *)
 Definition status_mw (rule : option Z) (inner : st -> hres) (x : st) : hres :=
@@ -379,6 +397,25 @@ Definition status_mw (rule : option Z) (inner : st -> hres) (x : st) : hres :=
               else HRet s false x
   | None => inner x
   end.
+
+(* ---------- redir: http.Redirect on the writer it is handed, then (0, nil) ---------- *)
+Definition K_LOC := bs "Location".
+Definition V_THERE := bs "/there".
+Definition REDIR_BODY := bs "<a href=""/there"">Found</a>." ++ [10%N; 10%N].
+Definition redir_mw (hit : bool) (inner : st -> hres) (x : st) : hres :=
+  if hit then
+    let x1 := set_chdr x (hset (hset (chdr x) K_LOC V_THERE) K_CT V_HTML) in
+    match bnd (h_wh 302 x1) (h_wr REDIR_BODY) with Done y => HRet 0 false y | Pan y => HPan y end
+  else inner x.
+
+(* ---------- mime: Content-Type set before the inner handlers run ---------- *)
+Definition enter_mime (v : option bytes) (x : st) : st :=
+  match v with Some t => set_chdr x (hset (chdr x) K_CT t) | None => x end.
+Definition mime_mw (v : option bytes) (inner : st -> hres) (x : st) : hres := inner (enter_mime v x).
+
+(* ---------- internal: internal locations are not found ---------- *)
+Definition internal_mw (hit : bool) (inner : st -> hres) (x : st) : hres :=
+  if hit then HRet 404 false x else inner x.
 
 (* ---------- errors ---------- *)
 Section Errors.
@@ -454,9 +491,12 @@ Definition header_mw (on : bool) (inner : st -> hres) (x : st) : hres :=
 Definition default_error1 (code : Z) (x : st) : out :=
   text_response c_wh (fun b => c_wr (Raw b)) code (errtext code) x.
 
-Definition gzip_mw (active : bool) (inner : st -> hres) (x : st) : hres :=
+(* The gzip.Writer comes from the writer pool in whatever state an earlier request left it
+   (abstracted by the plaintext it had absorbed); getWriter resets it before use. *)
+Definition gw_reset (absorbed : bytes) : bytes := [].
+Definition gzip_mw_p (pooled : bytes) (active : bool) (inner : st -> hres) (x : st) : hres :=
   if active then
-    match inner (set_gz x true false false false false false []) with
+    match inner (set_gz x true false false false false false (gw_reset pooled)) with
     | HPan y => HPan (out_st (g_close y))
     | HRet s e y =>
         if 400 <=? s then
@@ -467,6 +507,7 @@ Definition gzip_mw (active : bool) (inner : st -> hres) (x : st) : hres :=
         else match g_close y with Done z => HRet s e z | Pan z => HPan z end
     end
   else inner x.
+Definition gzip_mw : bool -> (st -> hres) -> st -> hres := gzip_mw_p [].
 
 (* ---------- log ---------- *)
 (* Logger.serveNext: a panic of the inner handlers is recovered and turned into (500, error),
@@ -503,19 +544,69 @@ Definition server (chain : st -> hres) : st :=
   end.
 End Errors.
 
-(* the whole site for one request *)
-Definition chain (errtext : Z -> bytes) (c : cfg) (path : bytes) (ae_gzip : bool)
+(* the whole site for one request; [pooled] = the state of the gzip.Writer and of the
+   bytes.Buffer this request is handed by the two pools *)
+Definition chain_p (pooled : bytes * bytes) (errtext : Z -> bytes) (c : cfg) (path : bytes) (ae_gzip : bool)
            (ops : list op) (ret : Z) (err : bool) : st -> hres :=
   log_mw errtext (c_log c)
-   (gzip_mw errtext (c_gzip c && ae_gzip)
+   (gzip_mw_p errtext (fst pooled) (c_gzip c && ae_gzip)
      (header_mw (c_header c)
        (errors_mw errtext (eff_path c path) (eff_errors c)
-         (status_mw (status_rule c path)
-           (templates_mw (tmode_of c path)
-             (probe ops ret err)))))).
-Definition serve (errtext : Z -> bytes) (c : cfg) (path : bytes) (ae_gzip : bool)
+         (redir_mw (redir_hit c path)
+           (status_mw (status_rule c path)
+             (mime_mw (mime_ct c path)
+               (internal_mw (internal_hit c path)
+                 (templates_mw_p (snd pooled) (tmode_of c path)
+                   (probe ops ret err))))))))).
+Definition chain : (Z -> bytes) -> cfg -> bytes -> bool -> list op -> Z -> bool -> st -> hres := chain_p ([], []).
+Definition serve_p (pooled : bytes * bytes) (errtext : Z -> bytes) (c : cfg) (path : bytes) (ae_gzip : bool)
            (ops : list op) (ret : Z) (err : bool) : st :=
-  server errtext (chain errtext c path ae_gzip ops ret err).
+  server errtext (chain_p pooled errtext c path ae_gzip ops ret err).
+(* a request served with brand-new pool objects *)
+Definition serve : (Z -> bytes) -> cfg -> bytes -> bool -> list op -> Z -> bool -> st := serve_p ([], []).
+
+(* ---------- limits: the request body is read through maxBytesReader ----------
+   A request is (script, return) plus the place [rd] in the script where the handler reads
+   the request body (None = never).  With `limits { body / 8 }` a body longer than the limit
+   makes that read fail with ErrMaxBytesExceeded and the handler returns (413, err) there, as
+   proxy does; otherwise the read has no effect on the response. *)
+Definition LIMIT : N := 8.
+Definition limits_view (c : cfg) (blen : N) (rd : option nat) (ops : list op) (ret : Z) (err : bool)
+  : list op * Z * bool :=
+  match rd with
+  | Some n => if c_limits c && (LIMIT <? blen)%N then (firstn n ops, 413, true) else (ops, ret, err)
+  | None => (ops, ret, err)
+  end.
+
+(* ---------- the server across requests: the two pools ----------
+   sync.Pool hands out any pooled object or a new one; a request returns its objects in the
+   state it leaves them (deferred Put / putWriter run during a panic too). *)
+Record req := { q_path : bytes; q_ae : bool; q_blen : N; q_rd : option nat; q_ops : list op; q_ret : Z; q_err : bool }.
+Record srv := { gz_pool : list bytes; buf_pool : list bytes }.
+Definition srv0 : srv := {| gz_pool := []; buf_pool := [] |}.
+Definition pool_get (p : list bytes) : bytes * list bytes :=
+  match p with b :: r => (b, r) | [] => ([], []) end.
+Definition serve_req_p (pooled : bytes * bytes) (errtext : Z -> bytes) (c : cfg) (q : req) : st :=
+  let v := limits_view c (q_blen q) (q_rd q) (q_ops q) (q_ret q) (q_err q) in
+  serve_p pooled errtext c (q_path q) (q_ae q) (fst (fst v)) (snd (fst v)) (snd v).
+Definition serve_req : (Z -> bytes) -> cfg -> req -> st := serve_req_p ([], []).
+Definition serve_srv (errtext : Z -> bytes) (c : cfg) (sv : srv) (q : req) : st * srv :=
+  let g := pool_get (gz_pool sv) in
+  let b := pool_get (buf_pool sv) in
+  let x := serve_req_p (fst g, fst b) errtext c q in
+  (x, {| gz_pool := if c_gzip c && q_ae q then gz_pend x :: snd g else gz_pool sv;
+         buf_pool := match tmode_of c (q_path q) with TOff => buf_pool sv | _ => b_buf x :: snd b end |}).
+(* the responses to a sequence of requests *)
+Fixpoint run_hist (errtext : Z -> bytes) (c : cfg) (sv : srv) (qs : list req) : list st :=
+  match qs with
+  | [] => []
+  | q :: r => let o := serve_srv errtext c sv q in fst o :: run_hist errtext c (snd o) r
+  end.
+Fixpoint srv_after (errtext : Z -> bytes) (c : cfg) (sv : srv) (qs : list req) : srv :=
+  match qs with
+  | [] => sv
+  | q :: r => srv_after errtext c (snd (serve_srv errtext c sv q)) r
+  end.
 
 (* ---------- what the client sees ---------- *)
 Definition nonempty_seg (g : seg) : bool := match g with Raw [] => false | _ => true end.
@@ -539,22 +630,98 @@ Definition view (x : st) : bool * bytes :=
 
 Record obs := {
   o_status : Z; o_garbled : bool; o_view : bytes; o_sup : nat;
-  o_xprobe : option bytes; o_xcfg : bool; o_xdel : bool
+  o_xprobe : option bytes; o_xcfg : bool; o_xdel : bool;
+  o_mime : bool;      (* Content-Type is the one the mime directive configures *)
+  o_loc : bool        (* Location: /there *)
 }.
+Definition is_val (o : option bytes) (v : bytes) : bool := match o with Some w => beq w v | None => false end.
 Definition observe (x : st) : obs :=
   let v := view x in
   {| o_status := match cm x with Some s => s | None => 200 end;
      o_garbled := fst v; o_view := if fst v then [] else snd v; o_sup := sup x;
      o_xprobe := hget (csnap x) K_XPROBE;
      o_xcfg := match hget (csnap x) K_XCFG with Some _ => true | None => false end;
-     o_xdel := match hget (csnap x) K_XDEL with Some _ => true | None => false end |}.
+     o_xdel := match hget (csnap x) K_XDEL with Some _ => true | None => false end;
+     (* net/http does not send Content-Type with a 304 *)
+     o_mime := match cm x with Some 304 => false | _ => is_val (hget (csnap x) K_CT) V_MIME end;
+     o_loc := is_val (hget (csnap x) K_LOC) V_THERE |}.
 
 Definition opt_beq (a b : option bytes) : bool :=
   match a, b with Some x, Some y => beq x y | None, None => true | _, _ => false end.
 Definition obs_eqb (a b : obs) : bool :=
   (o_status a =? o_status b) && Bool.eqb (o_garbled a) (o_garbled b) && beq (o_view a) (o_view b) &&
   Nat.eqb (o_sup a) (o_sup b) && opt_beq (o_xprobe a) (o_xprobe b) &&
-  Bool.eqb (o_xcfg a) (o_xcfg b) && Bool.eqb (o_xdel a) (o_xdel b).
+  Bool.eqb (o_xcfg a) (o_xcfg b) && Bool.eqb (o_xdel a) (o_xdel b) &&
+  Bool.eqb (o_mime a) (o_mime b) && Bool.eqb (o_loc a) (o_loc b).
+
+(* ---------- DefaultErrorFunc's text: "%d %s\n" with net/http's StatusText ---------- *)
+Definition status_text (code : Z) : bytes :=
+  match code with
+  | 100 => bs "Continue"
+  | 101 => bs "Switching Protocols"
+  | 102 => bs "Processing"
+  | 103 => bs "Early Hints"
+  | 200 => bs "OK"
+  | 201 => bs "Created"
+  | 202 => bs "Accepted"
+  | 203 => bs "Non-Authoritative Information"
+  | 204 => bs "No Content"
+  | 205 => bs "Reset Content"
+  | 206 => bs "Partial Content"
+  | 207 => bs "Multi-Status"
+  | 208 => bs "Already Reported"
+  | 226 => bs "IM Used"
+  | 300 => bs "Multiple Choices"
+  | 301 => bs "Moved Permanently"
+  | 302 => bs "Found"
+  | 303 => bs "See Other"
+  | 304 => bs "Not Modified"
+  | 305 => bs "Use Proxy"
+  | 307 => bs "Temporary Redirect"
+  | 308 => bs "Permanent Redirect"
+  | 400 => bs "Bad Request"
+  | 401 => bs "Unauthorized"
+  | 402 => bs "Payment Required"
+  | 403 => bs "Forbidden"
+  | 404 => bs "Not Found"
+  | 405 => bs "Method Not Allowed"
+  | 406 => bs "Not Acceptable"
+  | 407 => bs "Proxy Authentication Required"
+  | 408 => bs "Request Timeout"
+  | 409 => bs "Conflict"
+  | 410 => bs "Gone"
+  | 411 => bs "Length Required"
+  | 412 => bs "Precondition Failed"
+  | 413 => bs "Request Entity Too Large"
+  | 414 => bs "Request URI Too Long"
+  | 415 => bs "Unsupported Media Type"
+  | 416 => bs "Requested Range Not Satisfiable"
+  | 417 => bs "Expectation Failed"
+  | 418 => bs "I'm a teapot"
+  | 421 => bs "Misdirected Request"
+  | 422 => bs "Unprocessable Entity"
+  | 423 => bs "Locked"
+  | 424 => bs "Failed Dependency"
+  | 425 => bs "Too Early"
+  | 426 => bs "Upgrade Required"
+  | 428 => bs "Precondition Required"
+  | 429 => bs "Too Many Requests"
+  | 431 => bs "Request Header Fields Too Large"
+  | 451 => bs "Unavailable For Legal Reasons"
+  | 500 => bs "Internal Server Error"
+  | 501 => bs "Not Implemented"
+  | 502 => bs "Bad Gateway"
+  | 503 => bs "Service Unavailable"
+  | 504 => bs "Gateway Timeout"
+  | 505 => bs "HTTP Version Not Supported"
+  | 506 => bs "Variant Also Negotiates"
+  | 507 => bs "Insufficient Storage"
+  | 508 => bs "Loop Detected"
+  | 510 => bs "Not Extended"
+  | 511 => bs "Network Authentication Required"
+  | _ => []
+  end.
+Definition std_errtext (code : Z) : bytes := decimal code ++ bs " " ++ status_text code ++ [10%N].
 
 (* ---------- the executable specification (independent of [serve]) ----------
    Reference semantics = what the handler's script does to a bare net/http ResponseWriter. *)
@@ -591,7 +758,27 @@ Fixpoint touched (ops : list op) : bool :=
 Fixpoint panics (ops : list op) : bool :=
   match ops with [] => false | OPanic :: _ => true | _ :: r => panics r end.
 
-(* the error body the property promises for an error status reported without writing *)
+(* ---------- the handler contract (httpserver/middleware.go, net/http) ----------
+   WriteHeader is called at most once, before anything else is written or flushed, with a
+   final status 200..999; a handler that has written returns a status below 400 (0 = "I have
+   answered"); a returned error status is a valid one. What follows a panic is not run. *)
+Fixpoint wh_first (committed : bool) (ops : list op) : bool :=
+  match ops with
+  | [] => true
+  | OSet _ _ :: r => wh_first committed r
+  | OWh s :: r => negb committed && (200 <=? s) && (s <=? 999) && wh_first true r
+  | OWr _ :: r => wh_first true r
+  | OFl :: r => wh_first true r
+  | OPanic :: _ => true
+  end.
+Definition handler_contract (ops : list op) (ret : Z) : bool :=
+  wh_first false ops && (if touched ops then ret <? 400 else ret <=? 999).
+Definition panics_after_write (ops : list op) : bool := touched ops && panics ops.
+
+(* the error body the property promises for an error status reported without writing:
+   `errors visible` shows the error if there is one; a page configured for the status is served
+   if it can be read - a page that cannot be read is NOT replaced by the `*` page -; else the
+   `*` page if configured and readable; else the plain text *)
 Definition expected_error_body (errtext : Z -> bytes) (c : cfg) (path : bytes) (code : Z) (err : bool) : bytes :=
   match c_errors c with
   | EDebug => if err then errmsg (eff_path c path) code else errtext code
@@ -602,6 +789,25 @@ Definition expected_error_body (errtext : Z -> bytes) (c : cfg) (path : bytes) (
       end
   | _ => errtext code
   end.
+(* the same table written out clause by clause (C12_error_body_table proves them equal) *)
+Definition error_body_table (errtext : Z -> bytes) (c : cfg) (path : bytes) (code : Z) (err : bool) : bytes :=
+  match c_errors c with
+  | ENone | EPlain => errtext code
+  | EDebug => if err then errmsg (eff_path c path) code else errtext code
+  | EPages pages generic =>
+      match find (fun p => fst p =? code) pages with
+      | Some (_, Some content) => content          (* the page of this status *)
+      | Some (_, None) => errtext code            (* configured for this status, unreadable *)
+      | None => match generic with
+                | Some (Some content) => content  (* the `*` page *)
+                | Some None => errtext code       (* `*` page unreadable *)
+                | None => errtext code
+                end
+      end
+  end.
+
+Definition sets_ct (ops : list op) : bool :=
+  existsb (fun o => match o with OSet k _ => beq k K_CT | _ => false end) ops.
 
 (* classes of inputs on which the real code is known to deviate get their own Sig in the
    harness; the spec itself is the property statement *)
@@ -610,52 +816,77 @@ Definition spec (errtext : Z -> bytes) (c : cfg) (path : bytes) (ops : list op) 
   (* exactly one well-formed response; only this request is affected *)
   resp_ok && follow_ok && bystander_ok &&
   (if c_header c then o_xcfg o else true) &&
-  match status_rule c path with
+  if redir_hit c path then
+    (* redir answers itself *)
+    (o_status o =? 302) && negb (o_garbled o) && Nat.eqb (o_sup o) 0 && beq (o_view o) REDIR_BODY && o_loc o
+  else
+  match (match status_rule c path with Some s => Some s | None => if internal_hit c path then Some 404 else None end) with
   | Some s =>
-      (* the status directive answers instead of the inner handler *)
+      (* the status directive (internal: 404) answers instead of the inner handler *)
       if 400 <=? s then (o_status o =? s) && negb (o_garbled o) && Nat.eqb (o_sup o) 0 &&
-                        beq (o_view o) (expected_error_body errtext c path s false)
+                        beq (o_view o) (error_body_table errtext c path s false)
       else (o_status o =? s) && negb (o_garbled o) && Nat.eqb (o_sup o) 0 && beq (o_view o) []
   | None =>
     let p := run_plain ops in
     if panics ops then
-      if touched ops then true   (* header commit clause does not apply; containment is above *)
+      if touched ops then
+        (* the header commit clause does not apply (at most the one extra WriteHeader of whoever
+           recovers); containment is above; the client still sees what was sent before the panic *)
+        Nat.leb (o_sup o) (S (p_sup p)) && negb (o_garbled o) &&
+        (((o_status o =? match p_cm p with Some s => s | None => 200 end) && has_pref (o_view o) (p_body p)) ||
+         (* templates was still buffering: nothing had reached the connection *)
+         (c_templates c && (o_status o =? 500)))
       else (o_status o =? 500) && negb (o_garbled o) && Nat.eqb (o_sup o) 0 &&
            match c_errors c with
            | EDebug => has_pref (o_view o) PANIC_MARK
-           | _ => beq (o_view o) (expected_error_body errtext c path 500 false)
+           | _ => beq (o_view o) (error_body_table errtext c path 500 false)
            end
     else if touched ops then
       if 400 <=? ret then true    (* handler broke the contract: wrote and reported an error status *)
       else
         (* written response arrives unaltered; wrappers add no header commit *)
         negb (o_garbled o) && Nat.leb (o_sup o) (p_sup p) &&
+        (if handler_contract ops ret then Nat.eqb (o_sup o) 0 else true) &&
         (if contains (p_body p) TPL_OPEN && c_templates c then true   (* a template: it is executed *)
          else (o_status o =? match p_cm p with Some s => s | None => 200 end) &&
               opt_beq (o_xprobe o) (hget (p_snap p) K_XPROBE) &&
-              beq (o_view o) (p_body p))
+              beq (o_view o) (p_body p) &&
+              (* mime's Content-Type stays unless the handler sets its own *)
+              Bool.eqb (o_mime o) (match mime_ct c path with
+                                   | Some _ => negb (sets_ct ops) && negb (o_status o =? 304)
+                                   | None => false end))
     else if (400 <=? ret) && (ret <=? 999) then
       (o_status o =? ret) && negb (o_garbled o) && Nat.eqb (o_sup o) 0 &&
-      beq (o_view o) (expected_error_body errtext c path ret err)
+      beq (o_view o) (error_body_table errtext c path ret err)
     else Nat.eqb (o_sup o) 0 && negb (o_garbled o)
   end.
 
 (* ---------- cases ---------- *)
 Inductive case :=
-| CReq (c : cfg) (path : bytes) (ae_gzip : bool) (ops : list op) (ret : Z) (err : bool)
-       (texts : list (Z * bytes))             (* "%d %s\n" for the statuses involved *)
+| CReq (c : cfg) (path : bytes) (ae_gzip : bool) (blen : N) (rd : option nat) (ops : list op) (ret : Z) (err : bool)
+       (texts : list (Z * bytes))             (* "%d %s\n" as Go formats it, for the statuses involved *)
        (o : obs) (resp_ok follow_ok bystander_ok : bool)
+(* requests served one after the other by the same server (same or different connections,
+   pipelined), each with the observation of the same request served alone *)
+| CSeq (c : cfg) (qs : list (req * obs * obs)) (all_ok : bool)
 | CSkip.
 
-Definition text_of (texts : list (Z * bytes)) (s : Z) : bytes :=
-  match find (fun p => fst p =? s) texts with Some p => snd p | None => [] end.
+Definition texts_ok (texts : list (Z * bytes)) : bool :=
+  forallb (fun p => beq (snd p) (std_errtext (fst p))) texts.
 
 Definition judge (k : case) : N :=
   match k with
-  | CReq c path ae ops ret err texts o resp_ok follow_ok by_ok =>
-      let et := text_of texts in
-      let m := observe (serve et c path ae ops ret err) in
-      let agree := if resp_ok then obs_eqb m o else true in
-      verdict agree (spec et c path ops ret err o resp_ok follow_ok by_ok)
+  | CReq c path ae blen rd ops ret err texts o resp_ok follow_ok by_ok =>
+      let et := std_errtext in
+      let v := limits_view c blen rd ops ret err in
+      let m := observe (serve_req et c {| q_path := path; q_ae := ae; q_blen := blen; q_rd := rd; q_ops := ops; q_ret := ret; q_err := err |}) in
+      let agree := (if resp_ok then obs_eqb m o else true) && texts_ok texts in
+      verdict agree (spec et c path (fst (fst v)) (snd (fst v)) (snd v) o resp_ok follow_ok by_ok)
+  | CSeq c qs all_ok =>
+      let et := std_errtext in
+      let ms := map observe (run_hist et c srv0 (map (fun t => fst (fst t)) qs)) in
+      let agree := forallb (fun p => obs_eqb (fst p) (snd (fst (snd p)))) (combine ms qs) in
+      (* every response equals the response to the same request served alone *)
+      verdict agree (all_ok && forallb (fun t => obs_eqb (snd (fst t)) (snd t)) qs)
   | CSkip => 0%N
   end.
